@@ -326,6 +326,33 @@ let do_fp line =
      | K.DEos -> e ^ " D:eos")
   | _ -> "badcase"
 
+(* ---- NONE/NONE container (C01/C10):  ct <ck> <bsize> <isize> ; h1 h2 .. ; <hex data> ; <hex stream> ---- *)
+let rec chunks_of n l = if l = [] then [] else
+  let rec take k l acc = if k = 0 then (List.rev acc, l) else match l with [] -> (List.rev acc, []) | x :: t -> take (k - 1) t (x :: acc) in
+  let (a, b) = take n l [] in a :: chunks_of n b
+let do_ct line =
+  match split_on_semis line with
+  | ["ct"; ck; bs; isz] :: hashes :: [data] :: [stream] :: _ ->
+    let data = if data = "-" then [] else bytes_of_hex data in
+    let blocks = chunks_of (int_of_string bs) data in
+    let hs = List.filter (fun h -> h <> "-") hashes in
+    let table = List.combine (List.map hex_of_bytes blocks) (List.map ns hs) in
+    let hash b = try List.assoc (hex_of_bytes b) table with Not_found -> K.N0 in
+    let cfg = { K.h_ck = ns ck; K.h_etype = K.N0; K.h_ttype = K.N0; K.h_bsize = ns bs; K.h_isize = ns isz } in
+    let out = K.write_stream hash cfg blocks in
+    let evalid e = (K.en_get_name (z_of_zar (zar_of_n e))) <> None in
+    let tvalid t = (K.tr_get_name (z_of_zar (zar_of_n t))) <> None in
+    let p = match K.parse_stream hash evalid tvalid (nat_of_int (List.length blocks + 2)) (ns "64") [ns "5"; ns "3"; ns "0"] (bytes_of_hex stream) with
+      | None -> "P:header"
+      | Some (_, frames) ->
+        let rec go fs nb len sum = match fs with
+          | [K.PEnd] -> Printf.sprintf "P:ok:%d:%d:%d" nb len sum
+          | K.PData b :: t -> go t (nb + 1) (len + List.length b) (List.fold_left (fun a x -> a + Z.to_int (zar_of_n x)) sum b)
+          | _ -> "P:fail" in
+        go frames 0 0 0 in
+    "S:" ^ hex_of_bytes out ^ " " ^ p
+  | _ -> "badcase"
+
 let dispatch line =
   match words line with
   | [] -> ""
@@ -340,6 +367,7 @@ let dispatch line =
   | "hd" :: _ -> do_hd line
   | "zr" :: _ -> do_zr line
   | "fp" :: _ -> do_fp line
+  | "ct" :: _ -> do_ct line
   | k :: _ -> "unknown " ^ k
 
 let () =
